@@ -154,3 +154,50 @@ package actor
 //@             ==> ncalls() >= old(ncalls()) + 1 && callarg(old(ncalls()), 0) == br.playerID
 //@                 && exists(j, 0, 9, j < len(AA(gs, playerIdx)) && legalMove(gs, gs.Players[playerIdx], AA(gs, playerIdx)[j]))
 //@   ensures at-most-one-action-or-timer: ncalls() <= old(ncalls()) + 2
+
+// ---- observers and per-actor copies (C20) -------------------------------------------------------
+
+//@ spec hiddenP(p) = len(p.HoleCards) == 0 && p.Combination == nil
+//@ spec hidden(gs) = len(gs.Meta.Deck) == 0 && len(gs.Status.Burned) == 0
+//@     && forall(k, 0, 10, k < len(gs.Players) ==> (gs.Status.CurrentEvent != "GameClosed" || gs.Players[k].Fold ==> hiddenP(gs.Players[k])))
+
+// pokerface's own filter, verified against the module-cache source (hand states have at most ten players)
+//@ func extern github.com/weedbox/pokerface::(*GameState).AsObserver
+//@   property C20
+//@   requires GsShape(gs) && len(gs.Players) <= 10
+//@   modifies gs.Meta.Deck, gs.Status.Burned, forall(k, 0, 10, gs.Players[k].HoleCards), forall(k, 0, 10, gs.Players[k].Combination)
+//@   loop 0 unroll 10
+//@   loop 1 unroll 10
+//@   ensures hides: hidden(gs)
+
+//@ func (*observerRunner).UpdateTableState
+//@   property C20
+//@   returns err
+//@   requires obr != nil && tableInfo != nil && tableInfo.State != nil
+//@   requires tableInfo.State.GameState != nil ==> GsShape(tableInfo.State.GameState) && len(tableInfo.State.GameState.Players) <= 10
+//@   modifies obr.tableInfo, log, tableInfo.State.GameState.Meta.Deck, tableInfo.State.GameState.Status.Burned,
+//@            forall(k, 0, 10, tableInfo.State.GameState.Players[k].HoleCards), forall(k, 0, 10, tableInfo.State.GameState.Players[k].Combination)
+//@   ensures never-shows-hidden-cards: !obr.systemMode && tableInfo.State.GameState != nil ==> hidden(tableInfo.State.GameState)
+//@   ensures system-mode-sees-everything: obr.systemMode && tableInfo.State.GameState != nil ==>
+//@             sameslice(tableInfo.State.GameState.Meta.Deck, old(tableInfo.State.GameState.Meta.Deck))
+//@             && forall(k, 0, 10, k < len(tableInfo.State.GameState.Players) ==> sameslice(tableInfo.State.GameState.Players[k].HoleCards, old(tableInfo.State.GameState.Players[k].HoleCards)))
+//@   ensures published-once: err == nil && ncalls() == old(ncalls()) + 1 && callfn(old(ncalls())) == "callback:onTableStateUpdated" && callarg(old(ncalls()), 0) == ref(tableInfo)
+
+//@ func (*actor).UpdateTableState
+//@   property C20
+//@   returns err
+//@   requires a != nil && a.runner != nil && !held(a.mu)
+//@   modifies log
+//@   ensures forwards-once: ncalls() == old(ncalls()) + 1 && callfn(old(ncalls())) == "actor.Runner.UpdateTableState" && callrecv(old(ncalls())) == ref(a.runner)
+//@             && callarg(old(ncalls()), 0) == ref(tableInfo) && err == callres(old(ncalls()), 0)
+
+//@ func (*tableEngineAdapter).UpdateTableState
+//@   property C20
+//@   returns err
+//@   requires tea != nil && tableInfo != nil && ref(tea.actor) != 0 && typeis(tea.actor, "*actor.actor") && tea.actor.runner != nil && !held(tea.actor.mu)
+//@   modifies tea.table, log
+//@   ensures own-copy: ncalls() == old(ncalls()) + 1 ==> callfn(old(ncalls())) == "actor.Runner.UpdateTableState"
+//@             && callarg(old(ncalls()), 0) == ref(tea.table) && fresh(tea.table) && ref(tea.table) != ref(tableInfo)
+//@             && (tea.table.State != nil ==> fresh(tea.table.State))
+//@   ensures at-most-one-delivery: ncalls() <= old(ncalls()) + 1
+//@   ensures engine-table-untouched: unchanged(tableInfo.State) && unchanged(tableInfo.ID) && unchanged(tableInfo.UpdateSerial)
